@@ -157,10 +157,31 @@ func namesake(res *vlib.Result, prop string, r *vlib.Rand, ctxID int, variant st
 		res.Sample(1, rec)
 		return
 	}
-	// C03
+	// C03. A poll that is still open counts as still waiting (its completion is
+	// C04's concern); a client that is still open cannot be judged.
+	clientOpen, p1Open, p2Open := false, false, false
+	for _, q := range tr.open() {
+		switch {
+		case q.Kind == "client-poll":
+			clientOpen = true
+		case strings.HasSuffix(q.Sid, "#1"):
+			p1Open = true
+		case strings.HasSuffix(q.Sid, "#2"):
+			p2Open = true
+		}
+	}
 	if !all {
+		res.Obs("namesake_scenarios_with_requests_still_open", 1)
+	}
+	if clientOpen || (variant == "idle" && !all) {
 		res.Inconcl(name + ": a request was still open after 60 s (bounded completion is C04's concern)")
 		return
+	}
+	if p2Open {
+		snap.P2Ms[1] = 1 << 40 // has not ended
+	}
+	if p1Open {
+		snap.P1Ms[1] = 1 << 40
 	}
 	res.Distinct(name)
 	const none = "no snowflake proxies currently available"
